@@ -51,7 +51,10 @@ func LoadModuleFromStringWithOptions(source source.Opener, yang string, options 
 	if err != nil {
 		return nil, err
 	}
-	return m, meta.Compile(m)
+	if err = meta.Compile(m); err != nil {
+		return nil, err
+	}
+	return m, nil
 }
 
 type parser struct {
@@ -69,7 +72,10 @@ func LoadModuleWithOptions(source source.Opener, yangfile string, options Option
 	if err != nil {
 		return nil, fmt.Errorf("could not load yang file for '%s'. %w", yangfile, err)
 	}
-	return m, meta.Compile(m)
+	if err = meta.Compile(m); err != nil {
+		return nil, err
+	}
+	return m, nil
 }
 
 func (p *parser) parseModule(data string, parent *meta.Module, featureSet meta.FeatureSet, loader meta.Loader) (*meta.Module, error) {
